@@ -1,1 +1,149 @@
-import TextxVerif.Export
+import TextxVerif.Proofs.ExportModel
+/-!
+# C29 — graph exports are well-formed for any model and metamodel
+
+Models: `Dot.dotEscape` / `Dot.dotRepr` (driven by the tables regenerated from
+`textx/export.py` on every run, `Gen.Dot`), the DOT recogniser `Dot.recognise`
+(lexer + push-down parser), the record-label recogniser `Dot.recOk`, and the exports
+`Dot.exportModel` (`model_export_to_file`, after the three `fix:` commits),
+`Dot.mmDot` / `Dot.mmPuml` (`metamodel_export_tofile` with the two renderers).
+All theorems quantify over every string / object graph / class list; nothing is bounded.
+-/
+namespace Dot
+
+/-! ## escaping -/
+
+/-- `dot_escape` (a chain of `str.replace`) acts character by character. -/
+theorem C29_escape_chain (s : Str) : dotEscape s = s.flatMap escChar := dotEscape_eq_flatMap s
+
+/-- **Escape safety.** For every string `s` and every continuation `rest` of the file, the
+text `"` `dot_escape(s)` `"` `rest` lexes as exactly one string token whose content is the
+escaped value, after which the lexer continues on `rest` from its start state; and the
+escaped value contains no unescaped record-special character (`" { } | < >`) and no
+dangling backslash, so it stays inside one record field. -/
+theorem C29_escape_safe (s rest : Str) :
+    steps .start ('"' :: dotEscape s ++ '"' :: rest) =
+        (steps .start rest).map (fun r => (r.1, Tok.qstr (dotEscape s) :: r.2)) ∧
+      Safe (dotEscape s) := by
+  refine ⟨?_, dotEscape_safe s⟩
+  have h := Lx.quoted (dotEscape_safe s).qsafe
+  have e : '"' :: dotEscape s ++ '"' :: rest = ('"' :: dotEscape s ++ ['"']) ++ rest := by simp
+  rw [e, steps_append, h]
+  cases hr : steps .start rest <;> simp [hr]
+
+/-- The same for `dot_repr`, also when it truncates the escaped value in the middle of an
+escape sequence. -/
+theorem C29_repr_safe (s rest : Str) :
+    steps .start ('"' :: dotRepr s ++ '"' :: rest) =
+        (steps .start rest).map (fun r => (r.1, Tok.qstr (dotRepr s) :: r.2)) ∧
+      Safe (dotRepr s) := by
+  refine ⟨?_, dotRepr_safe s⟩
+  have h := Lx.quoted (dotRepr_safe s).qsafe
+  have e : '"' :: dotRepr s ++ '"' :: rest = ('"' :: dotRepr s ++ ['"']) ++ rest := by simp
+  rw [e, steps_append, h]
+  cases hr : steps .start rest <;> simp [hr]
+
+/-- A record label `{name|attrs}` built from safe fragments is a well-formed record label. -/
+theorem C29_record_label (n a : Str) (hn : Safe n) (ha : Safe a) : recOk (recordLabel n a) = true :=
+  recOk_recordLabel hn ha
+
+/-! ## rendering -/
+
+/-- **Rendering is valid DOT.** Whatever statements an export writes between `HEADER`
+and the closing brace: if the strings spliced into them are safe fragments, the text is
+accepted by the DOT recogniser and the recognised statements are the header's followed by
+exactly the written ones (one node / edge / cluster per statement, in order). -/
+theorem C29_render_valid (ss : List Stmt) (h : ∀ s ∈ ss, StmtOk s) :
+    recognise (renderDoc ss) = some (headerEvs ++ ss.flatMap stmtEvs) :=
+  recognise_renderDoc ss h
+
+/-! ## `model_export_to_file` -/
+
+/-- objects reachable from the exported roots through attribute values -/
+inductive Reach (h : Heap) (roots : List Root) : Nat → Prop
+  | root {r : Root} : r ∈ roots → Reach h roots r.id
+  | step {n t : Nat} {o : Obj} : Reach h roots n → h.get n = some o → t ∈ o.refs → Reach h roots t
+
+/-- **Model export.** For every object graph whose class names, attribute names and
+numeric renderings are safe fragments (string *values* are arbitrary), if the export
+produces a text then
+* the text is valid DOT and the recogniser reports exactly the statements written;
+* every written statement has safe strings and every node label is a well-formed
+  two-field record `{name|attrs}`;
+* no object gets two nodes; every root, every target of an edge and every object
+  reachable from a root through attribute values has its node. -/
+theorem C29_model_export_valid (h : Heap) (roots : List Root) (hh : HeapOk h) (text : Str)
+    (he : exportModel h roots = some text) :
+    ∃ ss, exportModelStmts h roots = some ss ∧ text = renderDoc ss ∧
+      recognise text = some (headerEvs ++ ss.flatMap stmtEvs) ∧
+      (∀ s ∈ ss, StmtOk s) ∧
+      (∀ m i n a, Stmt.node m i n a ∈ ss → recOk (recordLabel n a) = true) ∧
+      (nodeIds ss).Nodup ∧
+      (∀ d ∈ edgeTargets ss, d ∈ nodeIds ss) ∧
+      (∀ i, Reach h roots i → i ∈ nodeIds ss) := by
+  unfold exportModel at he
+  cases hs : exportModelStmts h roots with
+  | none => simp [hs] at he
+  | some ss =>
+    simp only [hs, Option.map_some, Option.some.injEq] at he
+    unfold exportModelStmts at hs
+    cases hr : exportRoots h (h.length + 1) roots { processed := [], out := [] } with
+    | none => simp [hr] at hs
+    | some st =>
+      simp only [hr, Option.map_some, Option.some.injEq] at hs
+      obtain ⟨⟨sfx, e⟩, hroots⟩ := exportRoots_ext h hh _ roots _ st hr
+      have hout : st.out = sfx := by simpa using e.out_eq
+      have hss : ss = sfx.reverse := by rw [← hs, hout]
+      have hok : ∀ s ∈ ss, StmtOk s := by
+        intro s hs'; rw [hss] at hs'; exact e.ok s (List.mem_reverse.mp hs')
+      have hids : ∀ n, n ∈ nodeIds ss ↔ n ∈ nodeIds sfx := by
+        intro n; rw [hss]; simp [nodeIds]
+      have hproc : ∀ n, n ∈ st.processed ↔ n ∈ nodeIds ss := by
+        intro n; rw [e.proc, hids]; simp
+      refine ⟨ss, rfl, he.symm, ?_, hok, ?_, ?_, ?_, ?_⟩
+      · rw [← he]; exact recognise_renderDoc ss hok
+      · intro m i n a hm
+        obtain ⟨hn, ha⟩ := hok _ hm
+        exact recOk_recordLabel hn ha
+      · rw [hss]
+        have : nodeIds sfx.reverse = (nodeIds sfx).reverse := by simp [nodeIds, List.filterMap_reverse]
+        rw [this]
+        show List.Pairwise (· ≠ ·) (nodeIds sfx).reverse
+        rw [List.pairwise_reverse]
+        exact e.nodup.imp (fun hne => hne.symm)
+      · intro d hd
+        rw [← hproc]
+        apply e.targets
+        rw [hss] at hd
+        simpa [edgeTargets, List.filterMap_reverse] using hd
+      · intro i hi
+        induction hi with
+        | root hr' => rw [← hproc]; exact hroots _ hr'
+        | step _ ho ht ih =>
+          rw [← hproc]
+          exact e.closed _ ((hids _).mp ih) _ ho _ ht
+
+/-- The pinned behaviour (no escaping of `name`) violates the property: an object named
+`a"b` yields a text the recogniser rejects, and an object named `a{b` yields a label that
+is not a well-formed record. -/
+theorem C29_unescaped_false :
+    recognise (renderDoc [.node false 1 cl!"a\"b:T" []]) = none ∧
+      recOk (recordLabel cl!"a{b:T" []) = false := by
+  constructor
+  · decide +kernel
+  · decide
+
+/-! ## non-vacuity -/
+
+example : dotEscape cl!"a\"b{|}\n\\" = cl!"a\\\"b\\{\\|\\}\\\\n\\\\" := by decide
+
+example : exportModel
+    [{ id := 1, cls := cl!"M", attrs := some [
+        { name := cl!"name", cont := false, req := true, val := .one (.str cl!"a\"b") },
+        { name := cl!"xs", cont := true, req := true, val := .many [.obj 2, .prim (.str cl!"q}")] }] },
+     { id := 2, cls := cl!"S", attrs := none }] [.plain 1] =
+    some (renderDoc [.edgeObj 1 2 cl!"xs:0" true, .node false 2 cl!":S" [],
+      .edgePrim 1 cl!"q\\}:str" cl!"xs:1" true, .node false 1 cl!"a\\\"b:M" []]) := by
+  decide +kernel
+
+end Dot
